@@ -29,6 +29,11 @@ Print Assumptions C12_addressing_styles_agree.
 Theorem C12_key_verbatim : forall k, wf_bytes k = true -> pct_decode (pct_encode k) = k.
 Proof. exact pct_roundtrip. Qed.
 Print Assumptions C12_key_verbatim.
+(* hence two different keys never reach the adapter as the same path *)
+Theorem C12_distinct_keys_distinct_paths : forall k1 k2, wf_bytes k1 = true -> wf_bytes k2 = true ->
+  pct_encode k1 = pct_encode k2 -> k1 = k2.
+Proof. exact pct_encode_injective. Qed.
+Print Assumptions C12_distinct_keys_distinct_paths.
 
 Theorem C12_key_limit : forall bk k, no_slash bk = true -> check_bucket_name bk = true -> k <> [] ->
   (parse_path_style (47 :: bk ++ 47 :: k) = POk (PObject bk k) <-> (length k <= 1024)%nat) /\
